@@ -75,6 +75,12 @@ DecodeClauses(g, adm, dvs, x, r) ==
        ELSE (IF inst.final /\ inst.left = <<>> THEN {} ELSE {"C01.instance_not_final"})
             \cup (IF inst.feasible THEN {} ELSE {"C01.instance_not_feasible"})
             \cup (IF ms # {} THEN {} ELSE {"C01.architecture_not_admissible"})
+            \* connection edges: a valid connection set for the connectors that exist (C01 / C11)
+            \cup (IF ms = {} \/ \E A \in ms : \A k \in CcIds(g) :
+                         LET ed == EdgesOfChoice(g, k, inst.con) IN
+                         IsValidConnSet(g, A, k, SemCap(g, A, k), EdgeMatrix(g, k, ed))
+                  THEN {} ELSE {"C01.connection_set_invalid", "C11.decoded_connection_set_invalid"})
+            \cup (IF Len(inst.con) = SumSeq([k \in DOMAIN g.cc |-> Len(EdgesOfChoice(g, k, inst.con))]) THEN {} ELSE {"C11.connection_edge_outside_any_choice"})
             \cup (IF ms = {} \/ Len(r.ract) # Len(dvs) \/ Len(r.rx) # Len(dvs) THEN {}
                   ELSE \* per clause: SOME matching architecture satisfies it (several assignments may denote one graph)
                        (IF \E A \in ms : \A i \in DOMAIN dvs : r.ract[i] => VarNodePresent(g, dvs[i], A) THEN {} ELSE {"C07.active_but_node_absent"})
@@ -90,6 +96,16 @@ DecodeClauses(g, adm, dvs, x, r) ==
                        \cup (IF Len(x) = Len(dvs) /\ \E i \in DOMAIN dvs : dvs[i].kind = "dv" /\ r.ract[i] /\ HasDvValue(inst, dvs[i].c)
                                                           /\ DvValue(inst, dvs[i].c) # ClampNode(g, dvs[i].c, x[i])
                              THEN {"C16.value_not_clamp_of_input"} ELSE {})))
+
+\* reference count of valid discrete designs: per admissible architecture, connection sets x discrete DV values
+RECURSIVE ProdOver(_, _)
+ProdOver(f, S) == IF S = {} THEN 1 ELSE LET x == CHOOSE y \in S : TRUE IN f[x] * ProdOver(f, S \ {x})
+RECURSIVE SumOver(_, _)
+SumOver(f, S) == IF S = {} THEN 0 ELSE LET x == CHOOSE y \in S : TRUE IN f[x] + SumOver(f, S \ {x})
+ArchCount(g, A) ==
+    ProdOver([k \in CcIds(g) |-> Cardinality(ValidConnSets(g, A, k, SemCap(g, A, k)))], CcIds(g))
+    * ProdOver([n \in DvNodeIds(g) |-> IF n \in A.nodes /\ g.nodes[n].disc THEN g.nodes[n].k ELSE 1], DvNodeIds(g))
+RefCount(g, adm) == SumOver([A \in adm |-> ArchCount(g, A)], adm)
 
 ArchDigest(inst) == [nodes |-> SeqSet(inst.nodes), der |-> SeqSet(inst.der), con |-> inst.con, dvv |-> SeqSet(inst.dvv)]
 =============================================================================
